@@ -377,6 +377,11 @@ def writeDatum (t : Thread) (st : MStore) (stack : List Val) (f : Datum → Opti
      | none => .fault .badOperandType st)
   | _ :: _ => .fault .badOperandType st
 
+/-- does the top of the stack point at a histogram datum? -/
+def isBucketsPtr (st : MStore) (dead : List (Nat × Metric.LV Datum)) : List Val → Bool
+  | .datum m lv :: _ => (match getD st dead m lv with | some ⟨.buckets _, _⟩ => true | _ => false)
+  | _ => false
+
 /-- `Inc`/`Dec` push the new value (`datum.GetInt`) -/
 def afterInc (t' : Thread) (st' : MStore) (d' : Datum) : Res :=
   match d'.val with
@@ -539,10 +544,7 @@ def stepCore (o : Oracle) (p : Prog) (inp : Input) (i : Instr) (t : Thread) (st 
   | .sset =>
     (popString o st dead stack).andThen st fun v rest =>
       -- a histogram observes the numeric value of the string
-      let isBuckets := match rest with
-        | .datum m lv :: _ => (match getD st dead m lv with | some ⟨.buckets _, _⟩ => true | _ => false)
-        | _ => false
-      if isBuckets then
+      if isBucketsPtr st dead rest then
         match o.parseFloat v with
         | some f => writeDatum t st rest (fun x => setFloatD o x f (stampOf t.time)) fun t' st' _ => .next t' st'
         | none => .err .convFailed st
